@@ -141,8 +141,10 @@ def forwardStream (rs : List RawLog) : List SU := rs.map decodeLog
 def filterLogs (hist : List SU) (frm to : Nat) : List SU :=
   hist.filter (fun u => decide (frm ≤ u.l1) && decide (u.l1 ≤ to))
 
-/-- `from` of the chunk that ends at `to`: `if to+1 > chunk { from = to+1-chunk }` else 0. -/
-def chunkFrom (to chunk : Nat) : Nat := if to + 1 > chunk then to + 1 - chunk else 0
+/-- `from` of the chunk that ends at `to`: `if to+1 > chunk { from = to+1-chunk }` else 0, in
+`uint64` arithmetic: for `to = 2^64-1` the sum wraps to 0, the test fails and `from = 0`. -/
+def chunkFrom (to chunk : Nat) : Nat :=
+  if (to + 1) % 2 ^ 64 > chunk then to + 1 - chunk else 0
 
 theorem chunkFrom_le {to chunk : Nat} (h : chunk ≠ 0) : chunkFrom to chunk ≤ to := by
   unfold chunkFrom; split <;> omega
@@ -194,5 +196,81 @@ def catchUp (guard : Bool) (s : State) (hist : List SU) (latest fin₁ chunk : N
     let r := setL1Head guard ⟨o.buf, s.head⟩ fin₂
     (r.1, o, r.2)
   | _ => (⟨o.buf, s.head⟩, o, none)
+
+/-! ### start-up: chain-id gate, then the catch-up, then the event loop -/
+
+/-- One `eth_chainId` attempt: transport error, the expected id, another id. -/
+inductive ChainIdAns where
+  | err | ok | mismatch
+  deriving DecidableEq, Repr, Inhabited
+
+inductive Gate where
+  | proceed     -- chain id verified
+  | fatal       -- the client returns an error and does nothing else
+  | cancelled   -- context cancelled while retrying (script exhausted)
+  deriving DecidableEq, Repr, Inhabited
+
+/-- `ensureChainID` (used by `Run`): retry on transient errors, a mismatch is fatal. -/
+def ensureChainID : List ChainIdAns → Gate
+  | [] => .cancelled
+  | .err :: t => ensureChainID t
+  | .ok :: _ => .proceed
+  | .mismatch :: _ => .fatal
+
+/-- `checkChainID` (used by `CatchUpL1Head`): one attempt, any failure is returned. -/
+def checkChainIDOnce : List ChainIdAns → Gate
+  | .ok :: _ => .proceed
+  | _ => .fatal
+
+structure Startup where
+  chainId : List ChainIdAns
+  latest : Option Nat    -- `LatestHeight` (`none`: error)
+  fin₁ : Option Nat      -- first `FinalisedHeight` (`none`: error)
+  hist : List SU
+  chunk : Nat
+  failAt : Option Nat
+  fin₂ : Nat
+  deriving Repr, Inhabited
+
+/-- `Run` / `CatchUpL1Head` up to the point where the live subscription starts: nothing is
+touched unless the chain id was verified; the catch-up is skipped when a height cannot be read. -/
+def startUp (g : Bool) (s : State) (cfg : Startup) (oneshot : Bool) : State × Gate :=
+  match (if oneshot then checkChainIDOnce cfg.chainId else ensureChainID cfg.chainId) with
+  | .proceed =>
+    match cfg.latest, cfg.fin₁ with
+    | some la, some f1 => ((catchUp g s cfg.hist la f1 cfg.chunk cfg.failAt cfg.fin₂).1, .proceed)
+    | _, _ => (s, .proceed)
+  | gate => (s, gate)
+
+/-- One life of the client under `Run`: start-up, then the event loop over `tr`. -/
+def runLife (g : Bool) (s : State) (cfg : Startup) (tr : List Ev) : State :=
+  match startUp g s cfg false with
+  | (s', .proceed) => run g s' tr
+  | (s', _) => s'
+
+/-! ### the L1-head feed (`feed.Feed`, one-slot subscriptions that skip when full) -/
+
+inductive FeedOp where
+  | send (h : Head)   -- `Blockchain.SetL1Head` → `l1HeadFeed.Send`
+  | recv              -- the subscriber takes what is in its slot (if anything)
+  deriving DecidableEq, Repr, Inhabited
+
+structure Subscriber where
+  slot : Option Head := none
+  received : List Head := []
+  deriving Repr, Inhabited
+
+def Subscriber.step (s : Subscriber) : FeedOp → Subscriber
+  | .send h => match s.slot with
+    | none => { s with slot := some h }
+    | some _ => s                      -- buffer full: this value is skipped for this subscriber
+  | .recv => match s.slot with
+    | none => s
+    | some h => { slot := none, received := s.received ++ [h] }
+
+def sentOf : List FeedOp → List Head
+  | [] => []
+  | .send h :: t => h :: sentOf t
+  | .recv :: t => sentOf t
 
 end Juno.C17
